@@ -37,29 +37,15 @@ M("c01-next-noguard", "C01", "src/ckl/lexer.py",
             raise CklSyntaxError("Unexpected end of input", self.getPos())
 ''', '''    def next(self):
 ''', "remove the end-of-input guard of next()")
-M("c01-keyword-param", "C01", "src/ckl/parser.py",
-  '''def check_redefine_keyword(token):
-    if token.type == "keyword":
-        raise CklSyntaxError(''', '''def check_redefine_keyword(token):
-    if token.type == "keyword":
-        raise ValueError(''', "ValueError for a keyword used as a name")
-
+M('c01-keyword-param', 'C01', 'src/ckl/parser.py',
+  'def check_redefine_keyword(token):\n    if token.type == "keyword" or token.value == "NULL":\n        raise CklSyntaxError(',
+  'def check_redefine_keyword(token):\n    if token.type == "keyword" or token.value == "NULL":\n        raise ValueError(',
+  'ValueError for a keyword used as a name')
 # ---- C06
-M("c06-int-hash-text", "C06", "src/ckl/values.py",
-  '''    def __hash__(self):
-        return hash(self.value)
-
-    def __eq__(self, other):
-        if not other.isNumerical():
-            return False
-        if isinstance(other, ValueDecimal):''',
-  '''    def __hash__(self):
-        return hash(str(self.value))
-
-    def __eq__(self, other):
-        if not other.isNumerical():
-            return False
-        if isinstance(other, ValueDecimal):''', "hash ints by their text")
+M('c06-int-hash-text', 'C06', 'src/ckl/values.py',
+  'class ValueInt(Value):\n    def __init__(self, value):\n        self.value = value\n\n    def __hash__(self):\n        return hash(self.value)',
+  'class ValueInt(Value):\n    def __init__(self, value):\n        self.value = value\n\n    def __hash__(self):\n        return hash(str(self.value))',
+  'hash ints by their text')
 M("c06-remove-identity", "C06", "src/ckl/values.py",
   '''    def removeItem(self, item):
         self.value.remove(item)
@@ -268,31 +254,10 @@ M("c02-chain-first-operand", "C02", "src/ckl/parser.py",
   '''        result.addAndClause(cmp)
         lhs = rhs''', '''        result.addAndClause(cmp)''',
   "every chain element is compared with the first operand")
-M("c02-and-eager", "C02", "src/ckl/nodes.py",
-  '''    def evaluate(self, environment):
-        for expression in self.expressions:
-            value = expression.evaluate(environment)
-            if not value.isBoolean():
-                raise CklRuntimeError(
-                    ValueString("ERROR"),
-                    f"Expected boolean but got {value.type()}",
-                    self.pos,
-                )
-            if not value.value:
-                return FALSE
-        return TRUE''', '''    def evaluate(self, environment):
-        values = [e.evaluate(environment) for e in self.expressions]
-        for value in values:
-            if not value.isBoolean():
-                raise CklRuntimeError(
-                    ValueString("ERROR"),
-                    f"Expected boolean but got {value.type()}",
-                    self.pos,
-                )
-        for value in values:
-            if not value.value:
-                return FALSE
-        return TRUE''', "and evaluates all clauses before testing")
+M('c02-and-eager', 'C02', 'src/ckl/nodes.py',
+  '    def evaluate(self, environment):\n        for expression in self.expressions:\n            value = expression.evaluate(environment)\n            if isExit(value):\n                return value\n            if not value.isBoolean():\n                raise CklRuntimeError(\n                    ValueString("ERROR"),\n                    f"Expected boolean but got {value.type()}",\n                    self.pos,\n                )\n            if not value.value:\n                return FALSE\n        return TRUE\n',
+  '    def evaluate(self, environment):\n        values = [e.evaluate(environment) for e in self.expressions]\n        for value in values:\n            if isExit(value):\n                return value\n            if not value.isBoolean():\n                raise CklRuntimeError(\n                    ValueString("ERROR"),\n                    f"Expected boolean but got {value.type()}",\n                    self.pos,\n                )\n        for value in values:\n            if not value.value:\n                return FALSE\n        return TRUE\n',
+  'and evaluates every operand before testing any')
 M("c02-int-add-float", "C02", "src/ckl/functions.py",
   '''        if a.isInt() and b.isInt():
             return ValueInt(a.value + b.value)''',
@@ -310,17 +275,10 @@ M("c02-div-floor", "C02", "src/ckl/functions.py",
             return ValueInt(quotient)''',
   '''            return ValueInt(a.value // divisor)''',
   "integer division floors instead of truncating")
-M("c02-mul-before-unary", "C02", "src/ckl/parser.py",
-  '''            call = NodeFuncall(NodeIdentifier("sub", pos), pos)
-            call.addArg("a", NodeLiteral(ValueInt(0), pos))
-            call.addArg("b", parse_pred_expr(lexer))
-            return call''',
-  '''            call = NodeFuncall(NodeIdentifier("sub", pos), pos)
-            call.addArg("a", NodeLiteral(ValueInt(0), pos))
-            call.addArg("b", parse_mul_expr(lexer))
-            return call''', "unary minus takes a whole product as operand")
-
-
+M('c02-mul-before-unary', 'C02', 'src/ckl/parser.py',
+  '            operand = parse_pred_expr(lexer)\n            if isinstance(operand, NodeLiteral) and operand.value.isDecimal():\n                # -(0.0) is the literal -0.0, as without the parentheses',
+  '            operand = parse_mul_expr(lexer)\n            if isinstance(operand, NodeLiteral) and operand.value.isDecimal():\n                # -(0.0) is the literal -0.0, as without the parentheses',
+  'unary minus takes a whole product as operand')
 # ---- C04
 M("c04-set-loop-unsorted", "C04", "src/ckl/nodes.py",
   '''        if lst.isSet():
@@ -328,44 +286,14 @@ M("c04-set-loop-unsorted", "C04", "src/ckl/nodes.py",
             result = TRUE''', '''        if lst.isSet():
             values = list(lst.value)
             result = TRUE''', "for over a set follows the host order")
-M("c04-map-loop-insertion", "C04", "src/ckl/nodes.py",
-  '''            values = [(k, lst.value[k]) for k in sorted(lst.value.keys())]''',
-  '''            values = [(k, lst.value[k]) for k in lst.value.keys()]''',
-  "for over a map follows insertion order")
-M("c04-compr-cond-inverted", "C04", "src/ckl/nodes.py",
-  '''                        f"Condition must be boolean "
-                        f"but got {condition.type()}",
-                        self.pos,
-                    )
-                if condition.value:
-                    result.addItem(value)
-            else:
-                result.addItem(value)
-        return result
-
-    def __repr__(self):
-        return (
-            "["
-            + repr(self.valueExpr)
-            + " for "
-            + repr(self.identifier)
-            + " in "''', '''                        f"Condition must be boolean "
-                        f"but got {condition.type()}",
-                        self.pos,
-                    )
-                if not condition.value:
-                    result.addItem(value)
-            else:
-                result.addItem(value)
-        return result
-
-    def __repr__(self):
-        return (
-            "["
-            + repr(self.valueExpr)
-            + " for "
-            + repr(self.identifier)
-            + " in "''', "list comprehension filter inverted")
+M('c04-map-loop-insertion', 'C04', 'src/ckl/nodes.py',
+  '        if lst.isMap():\n            values = lst.getSortedEntries()\n            result = TRUE',
+  '        if lst.isMap():\n            values = list(lst.value.items())\n            result = TRUE',
+  'for over a map visits keys in insertion order')
+M('c04-compr-cond-inverted', 'C04', 'src/ckl/nodes.py',
+  '                if condition.value:\n                    value = self.valueExpr.evaluate(localEnv)\n                    if isExit(value):\n                        return value\n                    result.addItem(value)\n            else:\n                value = self.valueExpr.evaluate(localEnv)\n                if isExit(value):\n                    return value\n                result.addItem(value)\n        return result\n\n    def __repr__(self):\n        return (\n            "["\n            + repr(self.valueExpr)\n            + " for "\n            + repr(self.identifier)\n            + " in "',
+  '                if not condition.value:\n                    value = self.valueExpr.evaluate(localEnv)\n                    if isExit(value):\n                        return value\n                    result.addItem(value)\n            else:\n                value = self.valueExpr.evaluate(localEnv)\n                if isExit(value):\n                    return value\n                result.addItem(value)\n        return result\n\n    def __repr__(self):\n        return (\n            "["\n            + repr(self.valueExpr)\n            + " for "\n            + repr(self.identifier)\n            + " in "',
+  'list comprehension keeps the elements its condition rejects')
 M("c04-while-break-propagates", "C04", "src/ckl/nodes.py",
   '''            result = self.block.evaluate(environment)
             if result.isBreak():
@@ -437,14 +365,10 @@ M("c05-catch-by-rendering", "C05", "src/ckl/nodes.py",
   '''                if not err or e.value == err.evaluate(environment):''',
   '''                if not err or str(e.value) == str(err.evaluate(environment)):''',
   "catch compares rendered text (1 vs 1.0 differ)")
-M("c05-error-value-stringified", "C05", "src/ckl/nodes.py",
-  '''        value = self.expression.evaluate(environment)
-        raise CklRuntimeError(value, value, self.pos)''',
-  '''        value = self.expression.evaluate(environment)
-        raise CklRuntimeError(value.asString(), value, self.pos)''',
-  "error raises the string form of its value")
-
-
+M('c05-error-value-stringified', 'C05', 'src/ckl/nodes.py',
+  '        if isExit(value):\n            return value\n        raise CklRuntimeError(value, value, self.pos)',
+  '        if isExit(value):\n            return value\n        raise CklRuntimeError(value.asString(), value, self.pos)',
+  'error values are turned into strings')
 # ---- C03
 M("c03-dynamic-scope", "C03", "src/ckl/functions.py",
   '''    def execute(self, args, environment, pos):
@@ -465,20 +389,10 @@ M("c03-assign-local", "C03", "src/ckl/functions.py",
         elif self.parent:
             self.parent.set(name, value)''',
   "assignment from a nested function frame creates a local binding")
-M("c03-defaults-at-definition", "C03", "src/ckl/nodes.py",
-  '''        result = ckl.functions.FuncLambda(environment)
-        for i in range(len(self.args)):
-            result.addArg(self.args[i], self.defs[i])''',
-  '''        result = ckl.functions.FuncLambda(environment)
-        for i in range(len(self.args)):
-            d = self.defs[i]
-            if d is not None:
-                try:
-                    d = NodeLiteral(d.evaluate(environment), self.pos)
-                except CklRuntimeError:
-                    d = self.defs[i]
-            result.addArg(self.args[i], d)''',
-  "defaults are evaluated when the function is created")
+M('c03-defaults-at-definition', 'C03', 'src/ckl/nodes.py',
+  '        result.pos = self.pos\n        for i in range(len(self.args)):\n            result.addArg(self.args[i], self.defs[i])',
+  '        result.pos = self.pos\n        for i in range(len(self.args)):\n            d = self.defs[i]\n            if d is not None:\n                try:\n                    d = NodeLiteral(d.evaluate(environment), self.pos)\n                except CklRuntimeError:\n                    d = self.defs[i]\n            result.addArg(self.args[i], d)',
+  'defaults evaluated when the function is created')
 M("c03-positionals-first", "C03", "src/ckl/values.py",
   '''        rest = ValueList()
         for i in range(len(values)):
@@ -531,26 +445,10 @@ M("c03-pipe-appends", "C03", "src/ckl/parser.py",
             call.addArg(None, node)
         lexer.eat(1)
         node = call''', "pipeline inserts the piped value after the positional arguments")
-M("c03-method-first-object-only", "C03", "src/ckl/nodes.py",
-  '''            obj = obj_
-            exists = obj.hasItem(self.member)
-            while not exists and obj.hasItem("_proto_"):
-                obj = obj.getItem("_proto_")
-                exists = obj.hasItem(self.member)
-            if not exists:
-                raise CklRuntimeError(
-                    ValueString("ERROR"),
-                    f"Member {self.member} not found",''',
-  '''            obj = obj_
-            exists = obj.hasItem(self.member)
-            if not exists and obj.hasItem("_proto_"):
-                obj = obj.getItem("_proto_")
-                exists = obj.hasItem(self.member)
-            if not exists:
-                raise CklRuntimeError(
-                    ValueString("ERROR"),
-                    f"Member {self.member} not found",''',
-  "method lookup follows the prototype chain only one step")
+M('c03-method-first-object-only', 'C03', 'src/ckl/values.py',
+  '        while isinstance(current, ValueObject) and id(current) not in seen:\n            if current.hasItem(key):\n                return current\n            seen.add(id(current))\n            current = current.getItem("_proto_")\n        return None',
+  '        while isinstance(current, ValueObject) and id(current) not in seen:\n            if current.hasItem(key):\n                return current\n            if len(seen) == 1:\n                return None\n            seen.add(id(current))\n            current = current.getItem("_proto_")\n        return None',
+  'member lookup follows the prototype chain one step only')
 M("c03-rest-keeps-last-only", "C03", "src/ckl/values.py",
   '''                    rest.addItem(values[i])
                 elif argName not in self.args:''',
@@ -583,10 +481,10 @@ M("c14-dq-newline-escape", "C14", "src/ckl/lexer.py",
                 if ch == "n":
                     token += "n"
                     state = 3''', "\\n is not an escape in double-quoted strings")
-M("c14-bin-underscore", "C14", "src/ckl/lexer.py",
-  '''                        Token(str(int(token.replace("_", ""), 2)), "int", here)''',
-  '''                        Token(str(int(token.split("_")[0], 2)), "int", here)''',
-  "binary literal stops at the first underscore")
+M('c14-bin-underscore', 'C14', 'src/ckl/lexer.py',
+  '                        str, int(token.replace("_", ""), 2)',
+  '                        str, int(token.split("_")[0], 2)',
+  'binary literal cut at the first underscore')
 M("c14-comment-swallows-crlf-line", "C14", "src/ckl/lexer.py",
   '''            elif state == 9:  # comment
                 if ch == "\\n":
@@ -623,19 +521,10 @@ M("c10-shared-module-cache", "C10", "src/ckl/functions.py",
             self.modulestack = []''', '''        if self.parent is None:
             self.modules = globals().setdefault("_SHARED_MODULES", dict())
             self.modulestack = []''', "module cache shared by all interpreters")
-M("c10-session-rollback", "C10", "src/ckl/interpreter.py",
-  '''        try:
-            result = parse_script(script, filename).evaluate(env)''',
-  '''        snapshot = dict(env.map)
-        try:
-            try:
-                result = parse_script(script, filename).evaluate(env)
-            except CklRuntimeError:
-                env.map.clear()
-                env.map.update(snapshot)
-                raise''', "definitions of a failing call are rolled back")
-
-
+M('c10-session-rollback', 'C10', 'src/ckl/interpreter.py',
+  '            node = parse_script(script, filename)\n            try:\n                result = node.evaluate(env)\n            except CklRuntimeError as e:\n                if e.pos is None:\n                    e.pos = getattr(node, "pos", None)\n                raise',
+  '            node = parse_script(script, filename)\n            snapshot = dict(env.map)\n            try:\n                result = node.evaluate(env)\n            except CklRuntimeError as e:\n                env.map.clear()\n                env.map.update(snapshot)\n                if e.pos is None:\n                    e.pos = getattr(node, "pos", None)\n                raise',
+  'a failing call rolls the session back to its start')
 # ---- C11
 M("c11-no-underscore-filter-unqualified", "C11", "src/ckl/nodes.py",
   '''        if self.unqualified:
@@ -647,13 +536,10 @@ M("c11-no-underscore-filter-unqualified", "C11", "src/ckl/nodes.py",
             for name in moduleEnv.getLocalSymbols():
                 environment.put(name, moduleEnv.get(name))''',
   "unqualified import binds private names too")
-M("c11-import-binds-all", "C11", "src/ckl/nodes.py",
-  '''                if name not in self.symbols:
-                    continue
-                environment.put(self.symbols[name], moduleEnv.get(name))''',
-  '''                environment.put(self.symbols.get(name, name),
-                                moduleEnv.get(name))''',
-  "import [..] binds every public symbol")
+M('c11-import-binds-all', 'C11', 'src/ckl/nodes.py',
+  '            available = moduleEnv.getLocalSymbols()\n            for name, alias in self.symbols:\n                if name.startswith("_"):\n                    continue  # skip private module symbols\n                if name not in available:\n                    continue\n                environment.put(alias, moduleEnv.get(name))',
+  '            available = moduleEnv.getLocalSymbols()\n            aliases = dict(self.symbols)\n            for name in available:\n                if name.startswith("_"):\n                    continue  # skip private module symbols\n                environment.put(aliases.get(name, name), moduleEnv.get(name))',
+  'an import list binds every public symbol')
 M("c11-module-sees-importer", "C11", "src/ckl/nodes.py",
   '''            moduleEnv = environment.getBase().newEnv()''',
   '''            moduleEnv = environment.newEnv()''',
